@@ -244,9 +244,12 @@ def run_check(prop_id: str, tier: str, dump_path: str | None = None) -> int:
         print(f"KNOWN-FINDING: property={prop_id} {fid} ({count} listed cases reproduced) {_FINDINGS.get(fid, '')}")
     print(f"{prop_id} {tier}: evaluations={evals} distinct_nontrivial={nontrivial} outcomes={len(outcomes)} "
           f"known={sum(known.values())} violations={n_viol} wall={evidence['wall_s']}s")
-    if missing:
+    if missing and not n_viol:
         sys.stderr.write(f"HARNESS ERROR: vacuity self-test failed, empty buckets: {missing}\n")
         return 2
+    if missing:
+        # a code change can legitimately empty a bucket; with violations to report the verdict is the violations
+        print(f"   note: coverage buckets empty on this tree: {missing}")
     if n_viol:
         rdir = os.path.join(ROOT, "replays", prop_id)
         os.makedirs(rdir, exist_ok=True)
